@@ -2122,20 +2122,20 @@ theorem witnessSW_inv : Inv witnessSW :=
 translated by HALF a class; it covers the populated range [2,6] -/
 theorem witnessSW_same_width : SameWidth witnessSW 1 11 (some 5) ∧
     (targetOf witnessSW 1 11 (some 5)).bounds = [1, 3, 5, 7, 9, 11] ∧ firstWidth witnessSW.bounds = 2 := by
-  decide +kernel
+  unfold SameWidth; decide +kernel
 
 /-- **the code keeps the volume on the half-class shift** (M3 = 706 before and after; the interpolated distribution
-[3/2, 4, 5/2, 0, 0] has `newV = 581`), -/
+[3/2, 4, 5/2, 0, 0] has `newV = 808`), -/
 theorem witnessSW_change_keeps_M3 :
     ∃ s', change witnessSW 1 11 (some 5) false = some s' ∧ thirdMoment witnessSW = 706 ∧ thirdMoment s' = 706 ∧
-      remeshNewV witnessSW 1 11 (some 5) = 581 ∧ s'.psd = [1059/581, 2824/581, 1765/581, 0, 0] := by
+      remeshNewV witnessSW 1 11 (some 5) = 808 ∧ s'.psd = [1059/808, 353/101, 1765/808, 0, 0] := by
   decide +kernel
 
 /-- **… and the variant that skips the rescaling for an unchanged class width does not**: same grid, same
-distribution, same re-mesh: the third moment goes from 706 to 581 although the new grid covers the populated range -/
+distribution, same re-mesh: the third moment goes from 706 to 808 although the new grid covers the populated range -/
 theorem skipRescale_changes_M3 :
     ∃ s', changeSkipSameWidth witnessSW 1 11 (some 5) = some s' ∧ s'.bounds = [1, 3, 5, 7, 9, 11] ∧
-      s'.psd = [3/2, 4, 5/2, 0, 0] ∧ thirdMoment witnessSW = 706 ∧ thirdMoment s' = 581 := by
+      s'.psd = [3/2, 4, 5/2, 0, 0] ∧ thirdMoment witnessSW = 706 ∧ thirdMoment s' = 808 := by
   decide +kernel
 
 /-- non-vacuity of the hypothesis set of `change_preserves_M3_same_width` / `changeSkip_same_width_M3`
